@@ -72,4 +72,33 @@ def serversAtA (verify : PK → Sig → Msg → Bool) (parse : Msg → Parsed Na
     (preferred : List Nat) (forUpload : Bool) (now : Time) (l : List (Announcement Sig Msg)) : List Server :=
   serversAt verify parse keys preferred forUpload now (l.filterMap accept)
 
+/-! ### Announcement histories
+
+`StorageFarmBroker.servers` maps a server id to the server object built from the **latest**
+announcement of that id: `_got_announcement` builds the new object (refusing the announcement if an
+entry is undecodable), pops the old one and stores the new one.  (An announcement equal to the
+stored one is ignored by `_should_ignore_announcement`; replacing an announcement by itself gives
+the same state up to dict order, which only matters for equal sort keys.  Seed C32-e ignored every
+re-announcement that kept FURL / NURLs / seed, so changed certificate lists never arrived.) -/
+def announce (st : List (Announced Sig Msg)) (a : Announcement Sig Msg) : List (Announced Sig Msg) :=
+  match accept a with
+  | none => st
+  | some s => st.filter (fun x => x.id != s.id) ++ [s]
+
+/-- `self.servers.values()` after a history of announcements, starting from an empty broker -/
+def brokerAfter (hist : List (Announcement Sig Msg)) : List (Announced Sig Msg) :=
+  hist.foldl announce []
+
+/-- the latest accepted announcement of server id `i` in a history -/
+def latest (i : Nat) (hist : List (Announcement Sig Msg)) : Option (Announced Sig Msg) :=
+  hist.foldl (fun acc a =>
+    match accept a with
+    | some s => if s.id = i then some s else acc
+    | none => acc) none
+
+/-- `get_servers_for_psi` at `now` after a history of announcements -/
+def serversAfter (verify : PK → Sig → Msg → Bool) (parse : Msg → Parsed Nat) (keys : List PK)
+    (preferred : List Nat) (forUpload : Bool) (now : Time) (hist : List (Announcement Sig Msg)) : List Server :=
+  serversAt verify parse keys preferred forUpload now (brokerAfter hist)
+
 end Tahoe.StorageClient
